@@ -307,6 +307,7 @@ func C07(p *engine.Prog, r *engine.Report) {
 	c07R5(p, r, "C07-R5")
 	r.Floor("C07-R5", 3, "god, height, diff")
 	c07R8(p, r)
+	c07R9(p, r)
 }
 
 func c07R2(p *engine.Prog, r *engine.Report) {
@@ -686,4 +687,47 @@ func c07R8(p *engine.Prog, r *engine.Report) {
 		r.Und("C07-R8", "determineValidators|approved.Add", p.Pos(f.Pos()), "no addition to the approved set found")
 	}
 	r.Floor("C07-R8", 2, "plain arm + delegator arm")
+}
+
+// c07R9: the quorum is never truncated: where the vote threshold is computed in floating point
+// (committee size x agreement threshold), the conversion to int takes the result of a rounding call
+// (Round / Ceil …), not the bare product — int(x) drops the fraction, the quorum loses a vote for
+// every committee size whose product has a fraction of .5 or more, and the acceptor admits
+// certificates one vote short. (Integer arithmetic has no such conversion and is not constrained.)
+func c07R9(p *engine.Prog, r *engine.Report) {
+	n := 0
+	for _, name := range []string{"Blockchain.GetCommitteeVotesThreshold", "Blockchain.GetCommitteeSize"} {
+		f := mustFunc(p, r, "blockchain", name)
+		if f == nil {
+			continue
+		}
+		r.Fn(engine.FuncName(f))
+		for _, b := range f.Blocks {
+			for _, ins := range b.Instrs {
+				cv, ok := ins.(*ssa.Convert)
+				if !ok {
+					continue
+				}
+				from, isB := cv.X.Type().Underlying().(*types.Basic)
+				to, isB2 := cv.Type().Underlying().(*types.Basic)
+				if !isB || !isB2 || from.Info()&types.IsFloat == 0 || to.Info()&types.IsInteger == 0 {
+					continue
+				}
+				n++
+				okR := false
+				if c, isC := engine.Unwrap(cv.X).(*ssa.Call); isC {
+					if o := engine.CalleeObj(&c.Call); o != nil {
+						switch o.Name() {
+						case "Round", "Ceil", "RoundToEven":
+							okR = true
+						}
+					}
+				}
+				r.Check(okR, "C07-R9", uniq(r, strings.TrimPrefix(name, "Blockchain.")+"|a threshold computed in floating point is rounded, not truncated"), p.InstrPos(cv), "int(Round(…))", "the float result is converted to int without a rounding call: the fraction is dropped and the quorum is one vote lower for some committee sizes — a certificate short of the quorum is accepted (and the node's own vote counter emits such certificates)")
+			}
+		}
+	}
+	if n == 0 {
+		r.OK("C07-R9", "thresholds|no floating point conversion in the threshold functions", "", "integer arithmetic only")
+	}
 }
